@@ -247,3 +247,39 @@ Fixpoint run (cf : cfg) (s : lstate) (hist : list step) : lstate * list (list ou
 Definition client_conn : conn := mkConn false None false None TCP Open false false.
 Definition init_state (ctx : conn) : lstate :=
   mkL [(0, 0)] [] [(0, client_conn); (1, ctx)] 2 [].
+
+(* ---------- contracts along a history (boolean, so that the correspondence check evaluates them on every
+   observed history and the theorems take them as hypotheses) ---------- *)
+Definition spec_field (f : field) : bool :=
+  match f with FAddress _ | FVia _ | FTls _ | FTp _ => true | _ => false end.
+
+(* environment contract: (1) HttpClient / the tunnel layers issue RegisterHttpConnection(l, None) only for an
+   open connection without error; (2) nobody assigns address / via / tls / transport_protocol of a connection
+   that requests are waiting on *)
+Definition step_ok (s : lstate) (e : step) : bool :=
+  match e with
+  | SGet _ _ => true
+  | SRegister l err => err || (connected (hget (l_heap s) l) && negb (c_error (hget (l_heap s) l)))
+  | SSet c f => negb (spec_field f && has_key (l_waiting s) c)
+  end.
+
+Fixpoint env_ok (cf : cfg) (s : lstate) (hist : list step) : bool :=
+  match hist with
+  | [] => true
+  | e :: r => step_ok s e && env_ok cf (fst (step_fn cf s e)) r
+  end.
+
+(* complement of the finding carrier-reused-as-origin: no request asks for a destination that matches a
+   registered connection whose handler is the layer stack of another connection (a tunnel carrier) *)
+Definition no_foreign_match (s : lstate) (e : step) : bool :=
+  match e with
+  | SGet _ g => forallb (fun x => negb (connection_spec_matches g (hget (l_heap s) (fst x)))
+                                  || N.eqb (handler_of (l_conns s) (fst x)) (fst x)) (l_conns s)
+  | _ => true
+  end.
+
+Fixpoint guard_ok (cf : cfg) (s : lstate) (hist : list step) : bool :=
+  match hist with
+  | [] => true
+  | e :: r => no_foreign_match s e && guard_ok cf (fst (step_fn cf s e)) r
+  end.
